@@ -145,6 +145,11 @@ def runStreamJl (prop tiS toS readerS extS implS : String) : Result :=
         let mOut := mobs.writes.foldl (· ++ ·) []
         let mErr := (mobs.calls.filter fun c => c.2.isSome).length
         let d := exit != 0 || mOut != out || mErr != nerr
+        -- every failure is reported, the one that ends the input included: fewer failures logged than lines (and
+        -- ends) that failed means that one of them — the last one, the undeliverable line — went unreported
+        let p := p.orElse fun _ =>
+          if prop == "C08" && exit == 0 && (readerFails || hasOverLongLine cfg.maxSize bytes) && nerr + failed < mErr
+          then some (if readerFails then "reader-failure-swallowed" else "oversize-line-swallowed") else none
         (match d, p with
          | false, none => ⟨"S", ""⟩
          | true, none => ⟨"D", s!"stream via jl r=[{readerS}] impl [{implS}] model [nerr={mErr} out={hexTok mOut}]"⟩
